@@ -168,10 +168,56 @@ def persistent_handler_scenario(h: Harness, rng):
         wsgrammar.MATRIX[:] = before
 
 
+def short_lived_genotypes_scenario(h: Harness, rng):
+    """ONE long-lived representation object maps a stream of genotypes that die as soon as they were mapped (what a search does),
+    so that later genotypes are allocated where earlier ones lived: each program must be the one a FRESH representation builds
+    from the same genes -- determined by the genes and the grammar, not by which object carried them"""
+    import gc
+    from geneticengine.grammar.grammar import extract_grammar
+    from props import steps_common as sc
+    g = extract_grammar([sc.Leaf, sc.Node], sc.Root)    # (plain int leaves: the stack representation builds them from the genes too)
+    for name, mk in (("Stack", lambda s: Stack(g, gene_length=64)), ("GE", lambda s: GE(g, synth.make_decider("grow", 4, s, g), gene_length=32)),
+                     ("SGE", lambda s: SGE(g, synth.make_decider("grow", 4, s, g), gene_length=16))):
+        shared = NativeRandomSource(rng.randrange(10**6))
+        rep = mk(shared)
+        geno = rep.create_genotype(shared)
+        bad = False
+        for k in range(h.n(150, 600)):
+            op = rng.random()
+            if op < 0.4:
+                nxt = rep.create_genotype(shared)
+            elif op < 0.8:
+                st, nxt = safe(lambda: rep.mutate(shared, geno))
+                if st != "ok":
+                    nxt = rep.create_genotype(shared)
+            else:
+                st, pair = safe(lambda: rep.crossover(shared, geno, rep.create_genotype(shared)))
+                nxt = pair[0] if st == "ok" else rep.create_genotype(shared)
+            geno = nxt          # (the previous genotype dies here)
+            del nxt
+            if k % 7 == 0:
+                gc.collect()
+            st, p = safe(lambda: rep.genotype_to_phenotype(geno))
+            fresh = mk(NativeRandomSource(0))
+            dna_copy = type(geno)(dna=(dict((kk, list(v)) for kk, v in geno.dna.items()) if isinstance(geno.dna, dict) else list(geno.dna)))
+            st2, p2 = safe(lambda: fresh.genotype_to_phenotype(dna_copy))
+            a = repr(p) if st == "ok" else f"error:{p}"
+            c = repr(p2) if st2 == "ok" else f"error:{p2}"
+            h.seen(f"short-lived:{name}:{k}:{a[:40]}", nontrivial=st == "ok")
+            if a != c:
+                h.fail(f"{name}.genotype_to_phenotype", "same-genotype-different-program",
+                       f"genotype #{k} of a stream mapped by one long-lived {name} representation gives {a[:120]}; a fresh representation maps the same genes to {c[:120]}",
+                       [name, k, str(geno.dna)[:400]])
+                bad = True
+                break
+        h.count(f"short-lived-genotype-streams:{name}" + (":violated" if bad else ""))
+
+
 def run(h: Harness):
     rng = h.rng
     decider_state_scenario(h, rng)
     persistent_handler_scenario(h, rng)
+    short_lived_genotypes_scenario(h, rng)
     C = gram.ClassSpec
     # fixed grammars with PLAIN float / str fields (drawn through the derived primitives of the gene-backed sources)
     fixed = [gram.Spec([C("A0", True, None), C("L", False, 0, [("x", "float")]), C("N", False, 0, [("l", ("cls", 0)), ("r", ("cls", 0))])], 0, [1, 2]),
